@@ -137,3 +137,76 @@ def owned_schedule(schedule):
         yield schedule
     finally:
         bm.Parallel, ap.Parallel = saved
+
+
+# ---- cooperative interleaving of prediction tasks at function-call granularity ----------------------------------------
+
+import sys
+import threading
+
+
+def interleaved(tasks, schedule, trace_prefix):
+    """Run the thunks in `tasks` as threads of which exactly one runs at a time; at every call of a Python function
+    whose file lies under `trace_prefix` the running thread consults `schedule` (a list of small ints, cycled) to
+    decide which thread continues.  Deterministic for a given schedule.  Returns (results, number of switches);
+    an exception raised by a task is re-raised."""
+    n = len(tasks)
+    cond = threading.Condition()
+    state = {"current": 0, "done": [False] * n, "pos": 0, "switches": 0}
+    results = [None] * n
+    errors = [None] * n
+
+    def alive():
+        return [i for i in range(n) if not state["done"][i]]
+
+    def pick(me):
+        a = alive()
+        if not a:
+            return None
+        k = schedule[state["pos"] % len(schedule)] if schedule else 0
+        state["pos"] += 1
+        return a[k % len(a)]
+
+    def yield_point(me):
+        with cond:
+            nxt = pick(me)
+            if nxt is not None and nxt != me:
+                state["current"] = nxt
+                state["switches"] += 1
+                cond.notify_all()
+                while state["current"] != me:
+                    cond.wait()
+
+    def run(me):
+        def tracer(frame, event, arg):
+            if event == "call" and frame.f_code.co_filename.startswith(trace_prefix):
+                yield_point(me)
+            return None
+        with cond:
+            while state["current"] != me:
+                cond.wait()
+        sys.settrace(tracer)
+        try:
+            results[me] = tasks[me]()
+        except BaseException as e:  # noqa
+            errors[me] = e
+        finally:
+            sys.settrace(None)
+            with cond:
+                state["done"][me] = True
+                a = alive()
+                if a:
+                    state["current"] = a[0]
+                cond.notify_all()
+
+    threads = [threading.Thread(target=run, args=(i,), daemon=True) for i in range(n)]
+    for t in threads:
+        t.start()
+    for t in threads:
+        t.join(120)
+    if any(t.is_alive() for t in threads):
+        raise RuntimeError("interleaved tasks did not finish")
+    for e in errors:
+        if e is not None:
+            raise e
+    return results, state["switches"]
